@@ -501,3 +501,15 @@ MUTANTS += [
     {"id": "C04-benign-paste-named-delimiters", "prop": "C04", "benign": True,
      "edits": [(D, _BP_OLD, '        let inner = &data[b"\\x1b[200~".len()..data.len() - b"\\x1b[201~".len()];\n        String::from_utf8(inner.to_vec()).ok().map(TerminalEvent::Paste)\n')]},
 ]
+
+
+# ---- round 4 (C04-J): both halves of the size report decoded by one private helper
+_TS_OLD = "        let mut chunks = data.split(|c| *c == b'\\x1b');\n        chunks.next()?; // empty\n        let cell_size = chunks.next()?;\n        let mut nums = numbers_decode(&cell_size[3..cell_size.len() - 1], b';');\n        let cell_height = nums.next()?;\n        let cell_width = nums.next()?;\n        let pixel_size = chunks.next()?;\n        let mut nums = numbers_decode(&pixel_size[3..pixel_size.len() - 1], b';');\n        let pixel_height = nums.next()?;\n        let pixel_width = nums.next()?;\n        Some(TerminalEvent::Size(TerminalSize {\n            cells: Size {\n                height: cell_height,\n                width: cell_width,\n            },\n            pixels: Size {\n                height: pixel_height,\n                width: pixel_width,\n            },\n        }))\n    }\n}\n\n"
+MUTANTS += [
+    {"id": 'C04-benign-termsize-shared-helper', "prop": "C04", "benign": True,
+     "edits": [("src/decoder.rs", _TS_OLD, "        let mut reports = data.split(|c| *c == b'\\x1b');\n        reports.next()?; // empty\n        let cells = Self::decode_size(reports.next()?)?;\n        let pixels = Self::decode_size(reports.next()?)?;\n        Some(TerminalEvent::Size(TerminalSize { cells, pixels }))\n    }\n}\n\nimpl TermSizeMatcher {\n    fn decode_size(report: &[u8]) -> Option<Size> {\n        let mut nums = numbers_decode(&report[3..report.len() - 1], b';');\n        let height = nums.next()?;\n        let width = nums.next()?;\n        Some(Size { height, width })\n    }\n}\n\n")]},
+    {"id": 'C04-termsize-shared-helper-swapped-fields', "prop": "C04", "expect": 'T7-FIELD-ORDER',
+     "edits": [("src/decoder.rs", _TS_OLD, "        let mut reports = data.split(|c| *c == b'\\x1b');\n        reports.next()?; // empty\n        let cells = Self::decode_size(reports.next()?)?;\n        let pixels = Self::decode_size(reports.next()?)?;\n        Some(TerminalEvent::Size(TerminalSize { cells, pixels }))\n    }\n}\n\nimpl TermSizeMatcher {\n    fn decode_size(report: &[u8]) -> Option<Size> {\n        let mut nums = numbers_decode(&report[3..report.len() - 1], b';');\n        let width = nums.next()?;\n        let height = nums.next()?;\n        Some(Size { height, width })\n    }\n}\n\n")]},
+    {"id": 'C04-termsize-shared-helper-swapped-reports', "prop": "C04", "expect": 'T7-FIELD-ORDER',
+     "edits": [("src/decoder.rs", _TS_OLD, "        let mut reports = data.split(|c| *c == b'\\x1b');\n        reports.next()?; // empty\n        let pixels = Self::decode_size(reports.next()?)?;\n        let cells = Self::decode_size(reports.next()?)?;\n        Some(TerminalEvent::Size(TerminalSize { cells, pixels }))\n    }\n}\n\nimpl TermSizeMatcher {\n    fn decode_size(report: &[u8]) -> Option<Size> {\n        let mut nums = numbers_decode(&report[3..report.len() - 1], b';');\n        let height = nums.next()?;\n        let width = nums.next()?;\n        Some(Size { height, width })\n    }\n}\n\n")]},
+]
